@@ -15,7 +15,7 @@ import tflsum
 import vlib
 
 FAMS = ["mixed_cpu", "unsupported", "ew_dag", "multi_custom", "mixed_cpu", "diamond", "single", "unsupported", "lut_heavy", "conv_chain",
-        "multi_subgraph"]
+        "multi_subgraph", "lstm"]
 
 
 def h(*parts):
@@ -25,15 +25,21 @@ def h(*parts):
 def tens_sig(t):
     q = t["quant"] or {"scale": [], "zero_point": [], "qdim": 0}
     # an absent quantisation table and an empty one denote the same thing
+    # (the variable flag only enters the signature when set, so that the signatures of ordinary tensors stay what they were)
     return h(t["name"], t["shape"], t["type"], q["scale"], q["zero_point"], q["qdim"] if q["scale"] else 0,
-             q.get("min") or [], q.get("max") or [])
+             q.get("min") or [], q.get("max") or [], *(["variable"] if t.get("variable") else []))
 
 
-def op_sig(o):
+def op_sig(o, sg=None):
     # an absent options table and an empty one (no field set) carry the same options
     opts = o["options"] or {}
     otype = o["options_type"] if opts else ""
-    return h(o["opcode"], o["custom_code"], o["version"], otype, opts, o["custom_options"])
+    # intermediates (the quantisation records an integer LSTM kernel reads its gate scales from) are part of what the
+    # operator is: their signatures, in order
+    inter = []
+    if sg is not None and o.get("intermediates"):
+        inter = [tens_sig(sg["tensors"][i]) if 0 <= i < len(sg["tensors"]) else -1 for i in o["intermediates"]]
+    return h(o["opcode"], o["custom_code"], o["version"], otype, opts, o["custom_options"], *inter)
 
 
 def flat_graph(sg):
@@ -43,7 +49,7 @@ def flat_graph(sg):
     f.append(len(sg["operators"]))
     for o in sg["operators"]:
         npu = 1 if (o["opcode"] == "CUSTOM" and o["custom_code"] == "ethos-u") else 0
-        f += [op_sig(o), npu, len(o["inputs"])] + o["inputs"] + [len(o["outputs"])] + o["outputs"]
+        f += [op_sig(o, sg), npu, len(o["inputs"])] + o["inputs"] + [len(o["outputs"])] + o["outputs"]
     f += [len(sg["inputs"])] + sg["inputs"] + [len(sg["outputs"])] + sg["outputs"]
     return f
 
@@ -69,11 +75,11 @@ def witness(src, out):
     for i, o in enumerate(out["operators"]):
         if o["opcode"] == "CUSTOM" and o["custom_code"] == "ethos-u":
             continue
-        sig = op_sig(o)
+        sig = op_sig(o, out)
         names = [out["tensors"][t]["name"] for t in o["outputs"]]
         best = None
         for j, s in enumerate(src["operators"]):
-            if j in usedo or op_sig(s) != sig:
+            if j in usedo or op_sig(s, src) != sig:
                 continue
             if [src["tensors"][t]["name"] for t in s["outputs"]] == names:
                 best = j
